@@ -3,16 +3,30 @@
 (* Configuration layering (property C18).                                  *)
 (*                                                                         *)
 (* A case is a chain of configuration files main -> ext1 -> ext2 (each may *)
-(* `extend_config` the next), a command-line setting, a queried module     *)
-(* path and the option kind.  Impl* transcribes pyanalyze/options.py       *)
+(* `extend_config` the next), a command line, a queried module path and    *)
+(* the option kind.  Impl* transcribes pyanalyze/options.py and the        *)
+(* command-line assembly of node_visitor.py / name_check_visitor.py        *)
 (* (file:line in comments); Ref* is the precedence documented in           *)
 (* docs/configuration.md and stated by the property.  Every operator takes *)
 (* the case as a parameter so that the same definitions judge states       *)
-(* enumerated by TLC (Config.cfg) and observations recorded from the real  *)
-(* code (ConfigTrace.tla).                                                 *)
+(* enumerated by TLC (Config.*.cfg) and observations recorded from the     *)
+(* real code (ConfigTrace.tla).                                            *)
 (*                                                                         *)
-(* Option kinds: "bool" (an error code; `disable_all` interacts with it),  *)
-(* "int" (first applicable wins) and "list" (concatenated).                *)
+(* Option kinds:                                                           *)
+(*   "bool"  an error code (BooleanOption without its own flag; the        *)
+(*           command line reaches it through -e/-d/--enable-all/           *)
+(*           --disable-all -> `settings`; `disable_all` in a file          *)
+(*           interacts with it)                                            *)
+(*   "flag"  a BooleanOption with --name / --no-name                       *)
+(*   "int"   an IntegerOption (--name N), default non-zero                 *)
+(*   "list"  a ConcatenatedOption (StringSequenceOption, --name X repeated)*)
+(*   "paths" a PathSequenceOption with a flag (import_paths): entries are  *)
+(*           resolved relative to the file that mentions them              *)
+(*   "files" the PathSequenceOption `paths`, which has no flag of its own: *)
+(*           the positional `files` of the command line become its         *)
+(*           command-line value                                            *)
+(* Values on every layer range over {not said, truthy (v1), falsy (v2)}:   *)
+(* bool/flag True/False, int 5/0, lists [x]/[].                            *)
 (***************************************************************************)
 EXTENDS Naturals, Sequences, FiniteSets, TLC
 
@@ -20,15 +34,26 @@ Paths == << <<>>, <<"a">>, <<"a", "b">>, <<"c">> >>          \* queried module p
 
 IsPrefix(p, q) == Len(p) <= Len(q) /\ \A i \in 1..Len(p) : p[i] = q[i]
 
+AllKinds == {"bool", "flag", "int", "list", "paths", "files"}
+PathKinds == {"paths", "files"}
+
+(* Which kinds concatenate.  The property says "list-valued options concatenate"; in the code that *)
+(* is the class ConcatenatedOption (options.py:164).  PathSequenceOption (options.py:203) is       *)
+(* deliberately not one of them: a list of paths is ONE value and the first statement wins --      *)
+(* files named on the command line replace the `paths` of the configuration file instead of being  *)
+(* checked in addition to them.  (Domain decision, see DESIGN 6.2.)                                *)
+IsConcat(kind) == kind = "list"
+
 (***************************************************************************)
 (* A section is [val, da]: val \in {"none","v1","v2"} is the explicit      *)
 (* setting of the observed option, da = TRUE iff `disable_all = true` is   *)
-(* written in that section.  For "bool": v1 = true, v2 = false.  For       *)
-(* "list" the written value is a one-element list naming its own location  *)
-(* so that concatenation order is observable.  A missing override section  *)
-(* is NoSection.                                                           *)
+(* written in that section.  v1 is the truthy value, v2 the falsy one.     *)
+(* For the list kinds the truthy value is a one-element list naming its    *)
+(* own location so that concatenation order (and, for paths, the directory *)
+(* it was resolved against) is observable; the falsy value is [].  A       *)
+(* missing override section is NoSection.                                  *)
 (***************************************************************************)
-SecVals(kind) == IF kind = "list" THEN {"none", "v1"} ELSE {"none", "v1", "v2"}
+SecVals(kind) == {"none", "v1", "v2"}
 Sections(kind) == [val : SecVals(kind), da : IF kind = "bool" THEN BOOLEAN ELSE {FALSE}]
 NoSection == [val |-> "absent", da |-> FALSE]
 
@@ -47,68 +72,184 @@ FileSpace(kind, rich) ==
 (* Malformed configurations (second sentence of the property): where, what *)
 BadKinds == {"unknown_key", "wrong_type", "nested_overrides", "module_at_top",
              "override_without_module", "recursive", "missing_file", "overrides_not_list",
-             "bool_for_int", "disable_all_not_bool"}
+             "bool_for_int", "disable_all_not_bool",
+             "wrong_elem_type", "extend_not_string", "override_not_table", "module_not_string"}
 
 FileName(i) == <<"f1", "f2", "f3">>[i]
 Tag(i, sec) == FileName(i) \o "." \o sec       \* the command line is "cmd"
 
+(* Where the files live.  "flat": all in directory d1, `extend_config = "f2.toml"`.  "nested":    *)
+(* file i+1 lives one directory below file i and is named by the relative path                    *)
+(* `extend_config = "d<i+1>/f<i+1>.toml"`, so that "relative to the including file", "relative to *)
+(* the main file" and "relative to the working directory" are three different places.             *)
+FileDir(layout, i) ==
+    IF layout = "flat" THEN "d1" ELSE <<"d1", "d1/d2", "d1/d2/d3">>[i]
+
 Concrete(kind, v, tag) ==
-    CASE kind = "bool" -> IF v = "v1" THEN <<"T">> ELSE <<"F">>
-      [] kind = "int"  -> IF v = "v1" THEN <<"i1">> ELSE <<"i2">>
-      [] kind = "list" -> <<tag>>
+    CASE kind \in {"bool", "flag"} -> IF v = "v1" THEN <<"T">> ELSE <<"F">>
+      [] kind = "int"  -> IF v = "v1" THEN <<"i5">> ELSE <<"i0">>
+      [] kind \in {"list", "paths", "files"} -> IF v = "v1" THEN <<tag>> ELSE << >>
 
 (***************************************************************************)
 (* Impl: options.py                                                        *)
-(*   parse_config_file / _parse_config_section (options.py:347-434) emit   *)
+(*   parse_config_file / _parse_config_section (options.py:343-439) emit   *)
 (*   instances in the textual order of the keys; Options.from_option_list  *)
-(*   (options.py:279) sorts them with a stable sort on sort_key()          *)
+(*   (options.py:272) sorts them with a stable sort on sort_key()          *)
 (*   (options.py:115); get_value_from_instances takes the first applicable *)
 (*   instance (options.py:101) or concatenates all applicable ones         *)
-(*   (options.py:166).                                                     *)
+(*   (options.py:167).                                                     *)
 (***************************************************************************)
 Inst(value, mod, fromcmd, prio) == [value |-> value, mod |-> mod, cmdline |-> fromcmd, prio |-> prio]
 
+\* PathSequenceOption.parse (options.py:213): (source_path.parent / elt).resolve(), where source_path is
+\* the `path` argument of _parse_config_section = the resolved path of the file being parsed
+\* (options.py:347,357).  bug = "main_dir" (sensitivity only): the main file's directory for every file.
+ImplSourceDir(c, i, bug) == IF bug = "main_dir" THEN FileDir(c.layout, 1) ELSE FileDir(c.layout, i)
+
+ImplTag(c, i, name, bug) ==
+    IF c.kind \in PathKinds THEN ImplSourceDir(c, i, bug) \o "/" \o Tag(i, name) ELSE Tag(i, name)
+
 \* one section: the explicit key ...
-ImplSectionInsts(kind, sec, mod, i, name, prio) ==
-    IF sec.val \in {"v1", "v2"} THEN << Inst(Concrete(kind, sec.val, Tag(i, name)), mod, FALSE, prio) >> ELSE << >>
+ImplSectionInsts(kind, sec, mod, tag, prio) ==
+    IF sec.val \in {"v1", "v2"} THEN << Inst(Concrete(kind, sec.val, tag), mod, FALSE, prio) >> ELSE << >>
 
 \* ... and, after the loop over the keys, `disable_all` yields False for every code that the same
-\* section did not explicitly enable (options.py:430)
+\* section did not explicitly enable (options.py:433)
 ImplSectionDisableAll(kind, sec, mod, prio) ==
     IF kind = "bool" /\ sec.da /\ sec.val # "v1" THEN << Inst(<<"F">>, mod, FALSE, prio) >> ELSE << >>
 
-ImplOverrides(kind, f, i, prio) ==
-    LET a == IF f.ova = NoSection THEN << >>
-             ELSE ImplSectionInsts(kind, f.ova, <<"a">>, i, "a", prio)
+ImplOverrides(c, f, i, prio, bug) ==
+    LET kind == c.kind
+        a == IF f.ova = NoSection THEN << >>
+             ELSE ImplSectionInsts(kind, f.ova, <<"a">>, ImplTag(c, i, "a", bug), prio)
                   \o ImplSectionDisableAll(kind, f.ova, <<"a">>, prio)
         ab == IF f.ovab = NoSection THEN << >>
-              ELSE ImplSectionInsts(kind, f.ovab, <<"a", "b">>, i, "ab", prio)
+              ELSE ImplSectionInsts(kind, f.ovab, <<"a", "b">>, ImplTag(c, i, "ab", bug), prio)
                    \o ImplSectionDisableAll(kind, f.ovab, <<"a", "b">>, prio)
     IN IF f.abfirst THEN ab \o a ELSE a \o ab
 
 \* Priority stored on the instances of file i.  parse_config_file passes priority + 1 down the
-\* extend_config chain (options.py:403) and _parse_config_section stores it on every instance it
+\* extend_config chain (options.py:396) and _parse_config_section stores it on every instance it
 \* creates.  (At the pinned commit the priority was computed but never stored -- every instance
 \* had priority 0 -- which is the defect repaired by the "fix:" commit recorded in
 \* known_findings.jsonl; pinned = TRUE reproduces that behaviour.)
 ImplPriority(i, pinned) == IF pinned THEN 0 ELSE i - 1
 
-RECURSIVE ImplFileInsts(_, _, _)
-ImplFileInsts(c, i, pinned) ==
+RECURSIVE ImplFileInsts(_, _, _, _)
+ImplFileInsts(c, i, pinned, bug) ==
     IF i > Len(c.files) THEN << >>
     ELSE LET f == c.files[i]
              prio == ImplPriority(i, pinned)
-             ext == IF i < Len(c.files) THEN ImplFileInsts(c, i + 1, pinned) ELSE << >>
-             own == ImplSectionInsts(c.kind, f.top, << >>, i, "top", prio)
-             ovs == ImplOverrides(c.kind, f, i, prio)
+             ext == IF i < Len(c.files) THEN ImplFileInsts(c, i + 1, pinned, bug) ELSE << >>
+             own == ImplSectionInsts(c.kind, f.top, << >>, ImplTag(c, i, "top", bug), prio)
+             ovs == ImplOverrides(c, f, i, prio, bug)
              da == ImplSectionDisableAll(c.kind, f.top, << >>, prio)     \* emitted after the key loop
          IN CASE f.extpos = "first" -> ext \o own \o ovs \o da
               [] f.extpos = "mid"   -> own \o ext \o ovs \o da
               [] f.extpos = "last"  -> own \o ovs \o ext \o da
 
-\* name_check_visitor.py:5818 -- command-line instances come first in the list
-ImplCmdInsts(c) ==
-    IF c.cmd = "none" THEN << >> ELSE << Inst(Concrete(c.kind, c.cmd, "cmd"), << >>, TRUE, 0) >>
+(***************************************************************************)
+(* Impl: command-line assembly.  Three stages, each with its own model:    *)
+(*   A  argparse: argv -> namespace      (options.py:124-263 per kind,     *)
+(*      node_visitor.py:862-1003, name_check_visitor.py:5784-5810)         *)
+(*   B  NodeVisitor.main: namespace -> kwargs (node_visitor.py:362-385)    *)
+(*   C  NameCheckVisitor.prepare_constructor_kwargs: kwargs -> command-    *)
+(*      line instances + which config file (name_check_visitor.py:5830)    *)
+(* A case reaches the command-line layer by one of three routes:           *)
+(*   "inst"   Options.from_option_list([cls(v, from_command_line=True)])   *)
+(*            (no assembly; the layering slice)                            *)
+(*   "kwargs" prepare_constructor_kwargs({name: v, ...})       (stage C)   *)
+(*   "argv"   NameCheckVisitor.main() on a real argv    (stages A, B, C)   *)
+(* The distinction that matters everywhere is ABSENT versus PRESENT WITH A *)
+(* FALSY VALUE: Given(<<"F">>) / Given(<<"i0">>) / Given(<< >>) are not    *)
+(* Absent.                                                                 *)
+(***************************************************************************)
+Given(v) == [given |-> TRUE, v |-> v]
+Absent == [given |-> FALSE, v |-> << >>]
+
+(* argv is a sequence of abstract tokens for the observed option (the driver spells them):         *)
+(*   "pos" --name            "neg" --no-name                      (flag)                           *)
+(*   "v1"  --name 5          "v2"  --name 0                       (int)                            *)
+(*   "a1"  --name cmd        "a2"  --name cmd2                    (list, paths)                    *)
+(*   "f1"  cmd               "f2"  cmd2          positional files (files)                          *)
+(*   "en"  -e CODE  "dis" -d CODE  "enall" --enable-all  "disall" --disable-all   (bool)           *)
+Tokens(kind) ==
+    CASE kind = "flag" -> {"pos", "neg"}
+      [] kind = "int" -> {"v1", "v2"}
+      [] kind \in {"list", "paths"} -> {"a1", "a2"}
+      [] kind = "files" -> {"f1", "f2"}
+      [] kind = "bool" -> {"en", "dis", "enall", "disall"}
+
+CmdWord(tok) == IF tok \in {"a1", "f1"} THEN "cmd" ELSE "cmd2"
+
+\* the part of the argparse namespace that concerns the observed option
+NS0 == [opt |-> Absent,          \* attribute named like the option; default=argparse.SUPPRESS => absent
+        files |-> << >>,         \* positional, nargs="*" (node_visitor.py:888): always present, [] if none
+        en |-> FALSE, dis |-> FALSE,          \* the observed code \in args.enable / args.disable
+        enall |-> FALSE, disall |-> FALSE]
+
+\* Stage A, one token
+ImplParseTok(ns, tok) ==
+    CASE tok = "pos" -> [ns EXCEPT !.opt = Given(<<"T">>)]      \* BooleanOptionalAction (options.py:141): last one wins
+      [] tok = "neg" -> [ns EXCEPT !.opt = Given(<<"F">>)]
+      [] tok = "v1"  -> [ns EXCEPT !.opt = Given(<<"i5">>)]     \* store, type=int (options.py:158): last one wins
+      [] tok = "v2"  -> [ns EXCEPT !.opt = Given(<<"i0">>)]
+      [] tok \in {"a1", "a2"} ->                                \* action="append" (options.py:197,220)
+            [ns EXCEPT !.opt = Given((IF ns.opt.given THEN ns.opt.v ELSE << >>) \o <<CmdWord(tok)>>)]
+      [] tok \in {"f1", "f2"} -> [ns EXCEPT !.files = ns.files \o <<CmdWord(tok)>>]
+      [] tok = "en"  -> [ns EXCEPT !.en = TRUE]                 \* action="append", default=[] (node_visitor.py:988)
+      [] tok = "dis" -> [ns EXCEPT !.dis = TRUE]
+      [] tok = "enall"  -> [ns EXCEPT !.enall = TRUE]           \* store_true (node_visitor.py:974)
+      [] tok = "disall" -> [ns EXCEPT !.disall = TRUE]
+
+RECURSIVE ImplParse(_, _)
+ImplParse(ns, argv) == IF argv = << >> THEN ns ELSE ImplParse(ImplParseTok(ns, Head(argv)), Tail(argv))
+
+\* Stage B, NodeVisitor.main (node_visitor.py:366-385): the entry of `settings` for the observed code.
+\* enable_all -> every code True; elif disable_all -> every code False; else _get_default_settings() = {}
+\* (name_check_visitor.py:5826); then every -e, then every -d.
+ImplMainSettings(ns) ==
+    LET base == IF ns.enall THEN Given(<<"T">>) ELSE IF ns.disall THEN Given(<<"F">>) ELSE Absent
+        afterEnable == IF ns.en THEN Given(<<"T">>) ELSE base
+    IN IF ns.dis THEN Given(<<"F">>) ELSE afterEnable
+
+\* kwargs as seen by stage C: [opt, files, settings]
+KwargsOf(c) ==
+    IF c.route = "argv"
+    THEN LET ns == ImplParse(NS0, c.argv)
+         IN [opt |-> ns.opt, files |-> ns.files, settings |-> ImplMainSettings(ns)]
+    ELSE \* route "kwargs": the caller passes the dictionary itself
+         LET v == IF c.cmd = "none" THEN Absent ELSE Given(Concrete(c.kind, c.cmd, "cmd"))
+         IN [opt |-> IF c.kind \in {"bool", "files"} THEN Absent ELSE v,
+             files |-> IF c.kind = "files" THEN v.v ELSE << >>,
+             settings |-> IF c.kind = "bool" THEN v ELSE Absent]
+
+Truthy(v) == v \notin {<<"F">>, <<"i0">>, << >>}
+
+\* Stage C, prepare_constructor_kwargs (name_check_visitor.py:5830-5848): instances in creation order.
+\* bug # "none" only in the sensitivity self-tests:
+\*   "drop_falsy"            `value = kwargs.pop(name, None); if value:` instead of `if name not in kwargs`
+\*   "drop_default_settings" a settings entry equal to the code's built-in default creates no instance
+ImplPrepare(c, kw, bug) ==
+    \* :5835 every entry of `settings` -> instance of the error code's option, from_command_line=True
+    (IF c.kind = "bool" /\ kw.settings.given /\ ~(bug = "drop_default_settings" /\ kw.settings.v = c.default)
+     THEN << Inst(kw.settings.v, << >>, TRUE, 0) >> ELSE << >>)
+    \* :5839 files = kwargs.pop("files", []); if files: Paths(files, from_command_line=True)
+    \o (IF c.kind = "files" /\ kw.files # << >> THEN << Inst(kw.files, << >>, TRUE, 0) >> ELSE << >>)
+    \* :5842 every registered option with should_create_command_line_option whose NAME IS IN kwargs
+    \* (`paths` and the error codes have should_create_command_line_option = False)
+    \o (IF c.kind \notin {"bool", "files"} /\ kw.opt.given /\ ~(bug = "drop_falsy" /\ ~Truthy(kw.opt.v))
+        THEN << Inst(kw.opt.v, << >>, TRUE, 0) >> ELSE << >>)
+
+\* command-line instances come first in the list handed to from_option_list (name_check_visitor.py:5855)
+ImplCmdInsts(c, bug) ==
+    IF c.route = "inst"
+    THEN (IF c.cmd = "none" THEN << >> ELSE << Inst(Concrete(c.kind, c.cmd, "cmd"), << >>, TRUE, 0) >>)
+    ELSE ImplPrepare(c, KwargsOf(c), bug)
+
+\* name_check_visitor.py:5849-5855 which configuration file is read: the config_file kwarg
+\* (--config-file), else cls.config_filename relative to the directory of the class's module, else none.
+ImplReadsFiles(c) == c.cfgsrc \in {"arg", "class"}
 
 \* sort_key: (not from_command_line, priority, -len(applicable_to)); Python's sort is stable.
 KeyLess(x, y) ==
@@ -134,55 +275,115 @@ FirstApplicable(insts, path, notfound) ==
     ELSE IF IsPrefix(Head(insts).mod, path) THEN Head(insts).value
          ELSE FirstApplicable(Tail(insts), path, notfound)
 
-\* ConcatenatedOption.get_value_from_instances (options.py:166): all applicable instances
+\* ConcatenatedOption.get_value_from_instances (options.py:167): all applicable instances
 RECURSIVE ConcatApplicable(_, _)
 ConcatApplicable(insts, path) ==
     IF insts = << >> THEN << >>
     ELSE (IF IsPrefix(Head(insts).mod, path) THEN Head(insts).value ELSE << >>)
          \o ConcatApplicable(Tail(insts), path)
 
-\* Options._get_value_for_no_default (options.py:301) appends an instance carrying the default value
+\* Options._get_value_for_no_default (options.py:297) appends an instance carrying the default value
 \* after the sorted instances; Options.get_value_for falls back to the default on NotFound.
 \* (At the pinned commit ConcatenatedOption.get_value_from_instances appended the default a second
 \* time; pinned = TRUE reproduces that.)
-ImplLookupWith(c, pinned) ==
+ImplLookupGen(c, pinned, bug) ==
     IF c.bad # "none" THEN <<"error">>
-    ELSE LET sorted == StableSort(ImplCmdInsts(c) \o ImplFileInsts(c, 1, pinned))
+    ELSE LET fileinsts == IF ImplReadsFiles(c) THEN ImplFileInsts(c, 1, pinned, bug) ELSE << >>
+             sorted == StableSort(ImplCmdInsts(c, bug) \o fileinsts)
              all == sorted \o << Inst(c.default, << >>, FALSE, 0) >>
-         IN IF c.kind = "list"
+         IN IF IsConcat(c.kind)
             THEN ConcatApplicable(all, c.q) \o (IF pinned THEN c.default ELSE << >>)
             ELSE FirstApplicable(all, c.q, c.default)
 
-ImplLookup(c) == ImplLookupWith(c, FALSE)
-ImplLookupPinned(c) == ImplLookupWith(c, TRUE)
+ImplLookupWith(c, pinned) == ImplLookupGen(c, pinned, "none")
+ImplLookup(c) == ImplLookupGen(c, FALSE, "none")
+ImplLookupPinned(c) == ImplLookupGen(c, TRUE, "none")
+
+\* the values of the command-line instances of the observed option, in list order (observable on the
+\* real Options object; used by the trace specification to detect drift of the assembly model even
+\* where a lower layer happens to say the same thing)
+ImplCmdValues(c) == LET s == ImplCmdInsts(c, "none") IN [i \in 1..Len(s) |-> s[i].value]
 
 (***************************************************************************)
 (* Ref: the documented precedence, written without reference to instances, *)
-(* priorities or sorting: a list of "statements" about the option in       *)
-(* decreasing precedence; the first one that says something wins (or all   *)
-(* are concatenated).                                                      *)
+(* priorities, sorting, namespaces or kwargs: a list of "statements" about *)
+(* the option in decreasing precedence; the first one that says something  *)
+(* wins (or all are concatenated).                                         *)
 (***************************************************************************)
 Says(v) == [said |-> TRUE, v |-> v]
 Silent == [said |-> FALSE, v |-> "none"]
 
-RefSectionSays(kind, sec, i, name) ==
+\* docs/configuration.md: "A list of paths (relative to the location of the pyproject.toml file)":
+\* the file that mentions them, wherever it was included from.
+RefLocation(c, i) == FileDir(c.layout, i)
+
+RefWritten(c, v, i, name) ==
+    IF c.kind \in PathKinds /\ v = "v1" THEN << RefLocation(c, i) \o "/" \o Tag(i, name) >>
+    ELSE Concrete(c.kind, v, Tag(i, name))
+
+RefSectionSays(c, sec, i, name) ==
     IF sec = NoSection THEN Silent
-    ELSE IF sec.val \in {"v1", "v2"} THEN Says(Concrete(kind, sec.val, Tag(i, name)))
-    ELSE IF kind = "bool" /\ sec.da THEN Says(<<"F">>)
+    ELSE IF sec.val \in {"v1", "v2"} THEN Says(RefWritten(c, sec.val, i, name))
+    ELSE IF c.kind = "bool" /\ sec.da THEN Says(<<"F">>)
     ELSE Silent
 
 \* sections of file i that match the path, most specific first
 RefMatching(c, i) ==
     LET f == c.files[i]
-    IN (IF IsPrefix(<<"a", "b">>, c.q) THEN << RefSectionSays(c.kind, f.ovab, i, "ab") >> ELSE << >>)
-       \o (IF IsPrefix(<<"a">>, c.q) THEN << RefSectionSays(c.kind, f.ova, i, "a") >> ELSE << >>)
-       \o << RefSectionSays(c.kind, f.top, i, "top") >>
+    IN (IF IsPrefix(<<"a", "b">>, c.q) THEN << RefSectionSays(c, f.ovab, i, "ab") >> ELSE << >>)
+       \o (IF IsPrefix(<<"a">>, c.q) THEN << RefSectionSays(c, f.ova, i, "a") >> ELSE << >>)
+       \o << RefSectionSays(c, f.top, i, "top") >>
 
 RECURSIVE RefChain(_, _)
 RefChain(c, i) == IF i > Len(c.files) THEN << >> ELSE RefMatching(c, i) \o RefChain(c, i + 1)
 
+(* What the command line says about the option ("the command-line value if given").  A value that   *)
+(* is given is a statement whatever it is: False, 0 and [] are values.                              *)
+(* On a real argv (--help texts; argparse conventions for repeated flags):                         *)
+(*   --name/--no-name, --name N : the last occurrence is the value;                                *)
+(*   --name X (list / paths)    : all occurrences, in order;                                       *)
+(*   positional files           : the files named; naming none says nothing;                       *)
+(*   error codes                : "-d CODE" disables it, "-e CODE" enables it; otherwise            *)
+(*       --enable-all / --disable-all ("... all checks BY DEFAULT") decide.  A command line with    *)
+(*       both -e CODE and -d CODE for the same code has no documented meaning and is outside the    *)
+(*       domain (ArgvOK).                                                                           *)
+Has(argv, t) == \E i \in 1..Len(argv) : argv[i] = t
+LastOf(argv, S) == LET I == {i \in 1..Len(argv) : argv[i] \in S}
+                   IN IF I = {} THEN 0 ELSE CHOOSE i \in I : \A j \in I : j <= i
+Among(argv, S) == SelectSeq(argv, LAMBDA t : t \in S)
+
+RefArgvSays(kind, argv) ==
+    CASE kind = "flag" ->
+            LET i == LastOf(argv, {"pos", "neg"})
+            IN IF i = 0 THEN Silent ELSE Says(IF argv[i] = "pos" THEN <<"T">> ELSE <<"F">>)
+      [] kind = "int" ->
+            LET i == LastOf(argv, {"v1", "v2"})
+            IN IF i = 0 THEN Silent ELSE Says(IF argv[i] = "v1" THEN <<"i5">> ELSE <<"i0">>)
+      [] kind \in {"list", "paths"} ->
+            LET w == Among(argv, {"a1", "a2"})
+            IN IF w = << >> THEN Silent ELSE Says([k \in 1..Len(w) |-> IF w[k] = "a1" THEN "cmd" ELSE "cmd2"])
+      [] kind = "files" ->
+            LET w == Among(argv, {"f1", "f2"})
+            IN IF w = << >> THEN Silent ELSE Says([k \in 1..Len(w) |-> IF w[k] = "f1" THEN "cmd" ELSE "cmd2"])
+      [] kind = "bool" ->
+            IF Has(argv, "dis") THEN Says(<<"F">>)
+            ELSE IF Has(argv, "en") THEN Says(<<"T">>)
+            ELSE IF Has(argv, "enall") THEN Says(<<"T">>)
+            ELSE IF Has(argv, "disall") THEN Says(<<"F">>)
+            ELSE Silent
+
+RefCmdSays(c) ==
+    IF c.route = "argv" THEN RefArgvSays(c.kind, c.argv)
+    ELSE IF c.cmd = "none" THEN Silent
+    ELSE IF c.kind = "files" /\ c.cmd = "v2" THEN Silent        \* `files=[]`: no file was named
+    ELSE Says(Concrete(c.kind, c.cmd, "cmd"))
+
+\* A configuration file takes part iff one was named (--config-file / config_file=...) or the visitor
+\* class declares its own (config_filename).
+RefFilesInEffect(c) == c.cfgsrc # "none"
+
 RefStatements(c) ==
-    (IF c.cmd = "none" THEN << >> ELSE << Says(Concrete(c.kind, c.cmd, "cmd")) >>) \o RefChain(c, 1)
+    << RefCmdSays(c) >> \o (IF RefFilesInEffect(c) THEN RefChain(c, 1) ELSE << >>)
 
 RECURSIVE FirstSaid(_, _)
 FirstSaid(s, default) ==
@@ -195,31 +396,54 @@ ConcatSaid(s, default) ==
 
 RefLookup(c) ==
     IF c.bad # "none" THEN <<"error">>
-    ELSE IF c.kind = "list" THEN ConcatSaid(RefStatements(c), c.default)
+    ELSE IF IsConcat(c.kind) THEN ConcatSaid(RefStatements(c), c.default)
     ELSE FirstSaid(RefStatements(c), c.default)
 
 (***************************************************************************)
 (* Bounded case space enumerated by TLC                                    *)
 (***************************************************************************)
 CONSTANTS
-    Kinds,       \* subset of {"bool","int","list"}
+    Kinds,       \* subset of AllKinds
     MaxFiles,    \* 1..3
     Rich,        \* TRUE: extended files carry every feature
-    WithBad      \* TRUE: also enumerate malformed configurations
+    WithBad,     \* TRUE: also enumerate malformed configurations
+    Routes,      \* subset of {"inst", "kwargs", "argv"}
+    Layouts,     \* subset of {"flat", "nested"}
+    Slim         \* TRUE: every file is top + override a, extend_config first (the command-line slice)
 
 DefaultsOf(kind) ==
     CASE kind = "bool" -> {<<"T">>, <<"F">>}
-      [] kind = "int"  -> {<<"d">>}
+      [] kind = "flag" -> {<<"F">>}           \* every BooleanOption that is not an error code defaults to False
+      [] kind = "int"  -> {<<"d">>}           \* maximum_positional_args: 10, neither 0 nor 5
       [] kind = "list" -> {<<"dflt">>}
+      [] kind \in PathKinds -> {<< >>}
 
-FileOK(kind, f, i, n) ==
+FileOK(kind, f, i, m) ==
     /\ (i = 1 \/ Rich \/ f \in FileSpace(kind, FALSE))
-    /\ (i = n => f.extpos = "first")
+    /\ (i = m => f.extpos = "first")
     /\ (~f.abfirst \/ (f.ova # NoSection /\ f.ovab # NoSection))
+    /\ (Slim => f.ovab = NoSection /\ ~f.abfirst /\ ~f.ova.da /\ f.extpos = "first")
 
 \* malformed: a small fixed carrier configuration with one defect at every position
 Plain(kind) == [top |-> [val |-> "v1", da |-> FALSE], ova |-> [val |-> "none", da |-> FALSE],
                 ovab |-> NoSection, abfirst |-> FALSE, extpos |-> "first"]
+
+\* command lines of up to two tokens for the observed option
+ArgvOK(kind, s) ==
+    kind = "bool" => /\ ~(Has(s, "en") /\ Has(s, "dis"))          \* no documented meaning
+                     /\ ~(Has(s, "enall") /\ Has(s, "disall"))    \* argparse: mutually exclusive group
+ArgvShapes(kind) ==
+    LET T == Tokens(kind)
+    IN {s \in {<< >>} \cup {<<a>> : a \in T} \cup {<<a, b>> : a \in T, b \in T} : ArgvOK(kind, s)}
+
+\* the canonical spelling of one value (used with malformed configurations)
+CanonArgv(kind, v) ==
+    IF v = "none" THEN << >>
+    ELSE CASE kind = "flag" -> <<"pos">> [] kind = "int" -> <<"v1">> [] kind \in {"list", "paths"} -> <<"a1">>
+           [] kind = "files" -> <<"f1">> [] kind = "bool" -> <<"en">>
+
+RouteOK(kind, r) == kind = "files" => r # "inst"      \* `paths` has no command-line instance of its own
+CfgSrcs(r, m) == IF r = "kwargs" THEN (IF m = 1 THEN {"arg", "class", "none"} ELSE {"arg", "class"}) ELSE {"arg"}
 
 (* The case is built in stages so that TLC's workers share the enumeration: kind/length, then one  *)
 (* file per step, then command line and query.  Only states with stage = "done" are cases.         *)
@@ -227,18 +451,18 @@ VARIABLES case, stage, n
 vars == <<case, stage, n>>
 
 Blank == [kind |-> "bool", files |-> << >>, cmd |-> "none", default |-> <<"T">>, q |-> << >>,
-          bad |-> "none", badfile |-> 0, badloc |-> "top"]
+          bad |-> "none", badfile |-> 0, badloc |-> "top",
+          route |-> "inst", argv |-> << >>, cfgsrc |-> "arg", layout |-> "flat"]
 
 Init == case = Blank /\ stage = "kind" /\ n = 0
 
 ChooseKind ==
     /\ stage = "kind"
-    /\ \E kind \in Kinds, m \in 1..MaxFiles, d \in BOOLEAN :
-         /\ (d \/ kind = "bool")
-         /\ case' = [case EXCEPT !.kind = kind,
-                                 !.default = CASE kind = "bool" -> IF d THEN <<"T">> ELSE <<"F">>
-                                               [] kind = "int" -> <<"d">>
-                                               [] kind = "list" -> <<"dflt">>]
+    /\ \E kind \in Kinds, m \in 1..MaxFiles, lay \in Layouts : \E d \in DefaultsOf(kind) :
+         \* the nested layout differs from the flat one only with >= 2 files; it is enumerated for the
+         \* kinds whose value shows the directory and for one scalar kind (extend_config resolution)
+         /\ (lay = "nested" => m >= 2 /\ kind \in PathKinds \cup {"int"})
+         /\ case' = [case EXCEPT !.kind = kind, !.default = d, !.layout = lay]
          /\ n' = m
     /\ stage' = "files"
 
@@ -251,15 +475,26 @@ AddFile ==
 
 ChooseQuery ==
     /\ stage = "files" /\ Len(case.files) = n
-    /\ \E c \in SecVals(case.kind), i \in 1..Len(Paths) :
-         case' = [case EXCEPT !.cmd = c, !.q = Paths[i]]
+    /\ \E r \in Routes, i \in 1..Len(Paths) :
+         /\ RouteOK(case.kind, r)
+         /\ \/ /\ r \in {"inst", "kwargs"}
+               /\ \E c \in SecVals(case.kind), src \in CfgSrcs(r, n) :
+                    case' = [case EXCEPT !.cmd = c, !.q = Paths[i], !.route = r, !.cfgsrc = src]
+            \/ /\ r = "argv"
+               /\ \E av \in ArgvShapes(case.kind) :
+                    case' = [case EXCEPT !.argv = av, !.q = Paths[i], !.route = r]
     /\ stage' = "done" /\ UNCHANGED n
 
 ChooseBad ==
-    /\ WithBad /\ stage = "files" /\ case.files = << >>
-    /\ \E b \in BadKinds, bf \in 1..n, loc \in {"top", "ova"} :
-         case' = [case EXCEPT !.files = [i \in 1..n |-> Plain(case.kind)], !.q = <<"a">>,
-                              !.bad = b, !.badfile = bf, !.badloc = loc]
+    /\ WithBad /\ stage = "files" /\ case.files = << >> /\ case.layout = "flat"
+    /\ \E b \in BadKinds, bf \in 1..n, loc \in {"top", "ova"}, r \in Routes, cm \in {"none", "v1"} :
+         /\ RouteOK(case.kind, r)
+         /\ (r = "inst" => cm = "none")
+         /\ (b = "wrong_elem_type" => case.kind \in {"list", "paths", "files"})
+         /\ case' = [case EXCEPT !.files = [i \in 1..n |-> Plain(case.kind)], !.q = <<"a">>,
+                                 !.bad = b, !.badfile = bf, !.badloc = loc, !.route = r,
+                                 !.cmd = IF r = "argv" THEN "none" ELSE cm,
+                                 !.argv = IF r = "argv" THEN CanonArgv(case.kind, cm) ELSE << >>]
     /\ stage' = "done" /\ UNCHANGED n
 
 Next == ChooseKind \/ AddFile \/ ChooseQuery \/ ChooseBad
@@ -272,4 +507,13 @@ LayeringFollowsDocs == stage = "done" => ImplLookup(case) = RefLookup(case)
 \* The behaviour of the pinned commit (priority never stored) does NOT satisfy the property: this
 \* invariant is expected to be violated and is used as a sensitivity test of the specification.
 PinnedFollowsDocs == stage = "done" => ImplLookupPinned(case) = RefLookup(case)
+
+\* Sensitivity self-tests of the command-line stage (each must be VIOLATED):
+\* an assembly that drops falsy command-line values,
+DropFalsyFollowsDocs == stage = "done" => ImplLookupGen(case, FALSE, "drop_falsy") = RefLookup(case)
+\* an assembly that drops error-code settings equal to the built-in default,
+DropDefaultSettingsFollowsDocs ==
+    stage = "done" => ImplLookupGen(case, FALSE, "drop_default_settings") = RefLookup(case)
+\* and path entries resolved against the main file's directory instead of the mentioning file's.
+MainDirFollowsDocs == stage = "done" => ImplLookupGen(case, FALSE, "main_dir") = RefLookup(case)
 =============================================================================
